@@ -99,6 +99,15 @@ def run(vc):
             p.prove(f"init[{mode}]:result-table-untouched", not res.writes, meta=dict(part="init"))
         vc.explore(f"get_voltage_init_vector[{mode}]", h_init, max_paths=40)
     run_lookup_reset(vc)
+    if not hasattr(vc, "native_standins"):
+        vc.native_standins = []
+    vc.native_standins.append(dict(
+        name="histories of one net object against fresh copies",
+        bound="fixed networks: an impedance coupler opened after a run (runpp / rundcpp / numba off), init='results' after an island was reconnected, "
+              "a bus out of service and back, all ext_grids switched off before rundcpp / runpp(init='results'), calc_sc(check_connectivity=False) "
+              "after machines were switched off and on a fresh net",
+        script="import subprocess, sys\nr = [subprocess.run([sys.executable, '-W', 'ignore', '-c', f'from replaylib.history import {f}; {f}()']).returncode "
+               "for f in ('main', 'main_lookups', 'main_selection')]\nsys.exit(1 if 1 in r else max(r))\n", timeout=1200))
 
 
 def classify(ob, model):
